@@ -356,8 +356,8 @@ func (r *bungeeCordMessageResponder) processMessage0(in io.Reader, decoder codec
 	}
 	if target == "ALL" {
 		r.BroadcastMessage(comp)
-	} else {
-		r.Server(target).BroadcastMessage(comp)
+	} else if server := r.Server(target); server != nil {
+		server.BroadcastMessage(comp)
 	}
 }
 func (r *bungeeCordMessageResponder) processMessage(in io.Reader) {
